@@ -18,6 +18,7 @@ import (
 	"math"
 	"strings"
 
+	"github.com/sboehler/knut/lib/common/compare"
 	"github.com/sboehler/knut/lib/common/dict"
 	"github.com/sboehler/knut/lib/common/set"
 	"github.com/sboehler/knut/lib/syntax"
@@ -104,7 +105,8 @@ func (m *Model) inferAccount(t *syntax.Transaction, b *syntax.Booking, other str
 		max    = math.Inf(-1)
 		best   string
 	)
-	for candidate := range m.countByAccount {
+	// iterate in a fixed order, so that ties are always broken the same way
+	for _, candidate := range dict.SortedKeys(m.countByAccount, compare.Ordered[string]) {
 		if candidate == other {
 			continue // the other account of this booking is not a valid candidate
 		}
@@ -125,7 +127,8 @@ func (m *Model) inferAccount(t *syntax.Transaction, b *syntax.Booking, other str
 func (m *Model) scoreCandidate(candidate string, tokens set.Set[token]) float64 {
 	count := float64(m.countByAccount[candidate])
 	score := math.Log(count / float64(m.count))
-	for token := range tokens {
+	// floating point addition is not associative: sum in a fixed order
+	for _, token := range dict.SortedKeys(tokens, compare.Ordered[token]) {
 		if countForToken, ok := m.countByTokenAndAccount[token][candidate]; ok {
 			score += math.Log(float64(countForToken) / count)
 		} else {
